@@ -45,6 +45,28 @@ theorem once (d : J) (hn : NodupKeys d) (hpk : ∀ kv ∈ d.getObj "paths", Doc.
     ((allSchemas d).map fun p => p.1).Nodup :=
   PointerProof.once NodupKeys NodupKeys.obj_inv NodupKeys.arr_inv hn
 
+/-- `"#" ++ ·` is injective -/
+theorem str_append_left_cancel (a b c : String) (h : a ++ b = a ++ c) : b = c := by
+  have := congrArg String.toList h
+  simp only [String.toList_append] at this
+  exact String.toList_inj.1 (List.append_cancel_left this)
+
+/-- … and so are the *keys* under which the analyzer files them (the strings, not only the token paths): two schema
+    positions never share a key, whatever the names - `a/properties/b` next to `a` with a property `b` included (the
+    escaped spellings `#/definitions/a~1properties~1b` and `#/definitions/a/properties/b` differ).  A memo keyed by the
+    unescaped concatenation would not have this (seeded change `b8-C12-schema-key-memo`). -/
+theorem keys_distinct (d : J) (hn : NodupKeys d) (hpk : ∀ kv ∈ d.getObj "paths", Doc.isPathKey kv.1 = true) :
+    ((allSchemas d).map fun p => key p.1).Nodup := by
+  have h1 := once d hn hpk
+  have h2 := resolves d hn hpk
+  rw [show ((allSchemas d).map fun p => key p.1) = ((allSchemas d).map fun p => p.1).map key by simp]
+  refine List.Nodup.map_on ?_ h1
+  intro a ha b hb hab
+  obtain ⟨pa, hpa, rfl⟩ := List.mem_map.1 ha
+  obtain ⟨pb, hpb, rfl⟩ := List.mem_map.1 hb
+  have := str_append_left_cancel _ _ _ hab
+  rw [← (h2 pa hpa).1, ← (h2 pb hpb).1, this]
+
 /-- top-level exactly for the entries of the definitions section -/
 theorem toplevel_iff (d : J) : ∀ p ∈ allSchemas d, isTopLevel p.1 = true ↔ ∃ n, p.1 = ["definitions", n] := by
   intro p _
